@@ -428,6 +428,26 @@ class SymRec:
         return f"SymRec<{self.cls.name if self.cls else '?'}>"
 
 
+class Choice:
+    """first-match choice among concrete alternatives: [(cond z3 Bool, value)], default (numpy.select element)"""
+    __slots__ = ("alts", "default")
+
+    def __init__(self, alts, default):
+        self.alts, self.default = alts, default
+
+    def guards(self):
+        """[(effective guard, value)] incl. the default"""
+        out, none_before = [], z3.BoolVal(True)
+        for c, v in self.alts:
+            out.append((smt.simp(z3.And(none_before, c)), v))
+            none_before = z3.And(none_before, z3.Not(c))
+        out.append((smt.simp(none_before), self.default))
+        return out
+
+    def __repr__(self):
+        return f"Choice({len(self.alts)} alternatives)"
+
+
 class OptVal:
     """Value that is None under a symbolic condition."""
     __slots__ = ("is_none", "val")
@@ -463,6 +483,19 @@ def resolve_opt(I, ctx, v):
 def eq_formula(I, ctx, a, b):
     """z3 Bool (or python bool) for a == b on data values; None if not comparable structurally."""
     a, b = enum_str(a), enum_str(b)
+    for x, y in ((a, b), (b, a)):
+        if isinstance(x, Choice):
+            fs = []
+            for g, v in x.guards():
+                e = eq_formula(I, ctx, v, y)
+                if e is False:
+                    continue
+                fs.append(g if e is True else z3.And(g, e))
+            return smt.simp(smt.Or(*fs)) if fs else False
+        if isinstance(x, Opaque) and x.attrs.get("eq"):
+            r = x.attrs["eq"](ctx, y)
+            if r is not None:
+                return r
     if isinstance(a, OptVal) or isinstance(b, OptVal):
         oa, ob = OptVal.of(a), OptVal.of(b)
         if oa.val is None or ob.val is None:
@@ -719,7 +752,7 @@ def iterate(I, ctx, v):
     if isinstance(v, (TupleVal, ListVal)):
         return list(v.items)
     if isinstance(v, DictVal):
-        return list(v.keyvals.values())
+        return list(v.keyvals.values()) + [k for k, x in reversed(v.sym)]
     if isinstance(v, SetVal):
         return list(v.items.values())
     if isinstance(v, str):
@@ -793,7 +826,15 @@ def getitem(I, ctx, o, k):
             raise ExcVal(I.exc_classes["KeyError"], (k,))
         return v
     if isinstance(o, DictVal):
-        hk = hkey(k)
+        try:
+            hk = hkey(k)
+        except Unsupported:
+            hk = None
+        if hk is None or o.sym:
+            pres, v = map_from_dict(I, ctx, o).lookup(k)
+            if not ctx.branch(pres):
+                raise ExcVal(I.exc_classes["KeyError"], (k,))
+            return v
         if hk not in o.items:
             m = None
             raise ExcVal(I.exc_classes["KeyError"], (k,))
@@ -887,7 +928,13 @@ def setitem(I, ctx, o, k, v):
         try:
             hk = hkey(k)
         except Unsupported:
-            raise Unsupported(f"symbolic key stored into a concrete dict at {ctx.where}: use a MapVal in the setup")
+            # symbolic key: kept apart, looked up by equality (a later store to an equal key shadows it: newest first)
+            for ent in o.sym:
+                if ent[0] is k:
+                    ent[1] = v
+                    return
+            o.sym.insert(0, [k, v])
+            return
         o.items[hk] = v
         o.keyvals.setdefault(hk, k)
         return
@@ -911,7 +958,28 @@ def setitem(I, ctx, o, k, v):
     raise Unsupported(f"item assignment on {o!r} at {ctx.where}")
 
 
+def map_of_pairs(I, ctx, pairs, tag="pairs"):
+    """a dict with finitely many symbolic keys, given as explicit (key, value) pairs"""
+    pairs = list(pairs)
+
+    def lookup(q):
+        pres, val = z3.BoolVal(False), None
+        for k, v in pairs:
+            hit = _zb(eq_formula(I, ctx, q, k))
+            val = v if val is None else ite_val(hit, (lambda v=v: v), (lambda val=val: val))
+            pres = z3.Or(hit, pres)
+        return smt.simp(pres), val
+    return MapVal(lookup, tag, pairs)
+
+
 def map_store(I, ctx, m, k, v):
+    if m.pairs is not None:
+        for idx, (k0, v0) in enumerate(m.pairs):
+            if k0 is k or eq_formula(I, ctx, k0, k) is True:
+                m.pairs[idx] = (k0, v)
+                break
+        else:
+            m.pairs.append((k, v))
     old = m.lookup
 
     def lookup(q, old=old, k=k, v=v):
@@ -925,8 +993,9 @@ def map_from_dict(I, ctx, d):
     """closure view of a concrete dict (so symbolic keys can be looked up in it)"""
     def lookup(q, d=d):
         pres, val = z3.BoolVal(False), None
-        for hk, v in d.items.items():
-            hit = _zb(eq_formula(I, ctx, q, d.keyvals[hk]))
+        entries = [(d.keyvals[hk], v) for hk, v in d.items.items()] + [(k, v) for k, v in reversed(d.sym)]
+        for k, v in entries:
+            hit = _zb(eq_formula(I, ctx, q, k))
             val = v if val is None else ite_val(hit, (lambda v=v: v), (lambda val=val: val))
             pres = z3.Or(hit, pres)
         return smt.simp(pres), val
